@@ -188,6 +188,23 @@ Theorem C19_not_ready_is_refused : forall nd b, step nd (ORpcDown b) = (nd, RErr
 Proof. exact not_ready_is_refused. Qed.
 Print Assumptions C19_not_ready_is_refused.
 
+(* (10) where a position advance can come from: the synced map changes only when an unfiltered entry is applied and then
+        records that entry's own (cluster, term, index) - a replayed log entry, a SUCCESSFUL ApplyRemoteSnap of that
+        very snapshot, or a skipped snapshot; a TransferRemoteSnap request never moves a position whatever the status
+        table of the replica holds.  The snapshot saved by a node carries the positions captured AT the index where
+        GetSnapshot ran (model op OSnapLate), so C19_restart_commutes covers the two-phase snapshot as well. *)
+Theorem C19_position_advance_source : forall st le,
+  r_synced (apply_entry st le) <> r_synced st ->
+  exists e, is_already_applied (r_synced st) e = false /\
+    r_synced (apply_entry st le) = postprocess (r_synced st) e /\
+    (le = LSync e \/ (exists j, le = LSnap e (Some j)) \/ le = LSkip e).
+Proof. exact position_advance_source. Qed.
+Print Assumptions C19_position_advance_source.
+
+Theorem C19_transfer_never_moves_position : forall st e, apply_entry st (LXfer e) = st.
+Proof. exact transfer_never_moves_position. Qed.
+Print Assumptions C19_transfer_never_moves_position.
+
 (* ---------- non-vacuity and the role of the hypotheses ---------- *)
 
 Definition ex_src : list sentry :=
